@@ -377,7 +377,7 @@ fn families_base(id: &str, tier: &str) -> Vec<Spec> {
     let mut out = Vec::new();
     match id {
         "C01" => {
-            let b = if thorough { 5 } else { 3 };
+            let b = if thorough { 6 } else { 3 };
             ps_set(&[(&[2], 1), (&[2], 2), (&[2, 2], 1), (&[2, 2], 2), (&[1], 3), (&[0, 1], 1)], false, false, false, b, &mut out);
             burst_families(&mut out);
             any_order_families("ps", b.saturating_sub(1), &mut out);
@@ -386,23 +386,23 @@ fn families_base(id: &str, tier: &str) -> Vec<Spec> {
             ps_set(&[(&[1, 2, 1], 1)], false, false, false, b, &mut out);
             out.retain(|s| matches!(s.scn, Scn::Ps(_)));
             if thorough {
-                ps_set(&[(&[3], 2), (&[2, 1], 3), (&[3, 3], 2)], false, false, false, 4, &mut out);
+                ps_set(&[(&[3], 2), (&[2, 1], 3), (&[3, 3], 2)], false, false, false, 5, &mut out);
                 // tiny topologies, deep (the tree is infinite without a bound: a sink may answer
                 // Pending again after every unblock)
-                let deep: usize = std::env::var("VERIF_DEEP").ok().and_then(|s| s.parse().ok()).unwrap_or(10);
+                let deep: usize = std::env::var("VERIF_DEEP").ok().and_then(|s| s.parse().ok()).unwrap_or(11);
                 ps_set(&[(&[1], 1), (&[2], 1), (&[1], 2)], false, false, false, deep, &mut out);
             }
         }
         "C02" | "C10" => {
-            routing_families(tier, if thorough { 4 } else { 3 }, &mut out);
+            routing_families(tier, if thorough { 5 } else { 3 }, &mut out);
             burst_families(&mut out);
-            any_order_families("rr", if thorough { 3 } else { 2 }, &mut out);
+            any_order_families("rr", if thorough { 4 } else { 2 }, &mut out);
             many_peer_families("rr", &mut out);
             out.retain(|s| matches!(s.scn, Scn::Rr(_)));
         }
-        "C08" => fault_families(tier, if thorough { 5 } else { 4 }, &mut out),
+        "C08" => fault_families(tier, if thorough { 6 } else { 4 }, &mut out),
         "C09" => {
-            let b = if thorough { 4 } else { 3 };
+            let b = if thorough { 5 } else { 3 };
             ps_set(&[(&[2], 1), (&[2], 2), (&[2, 2], 1), (&[2, 2], 2), (&[1], 3)], false, false, false, b, &mut out);
             routing_families(tier, b, &mut out);
             burst_families(&mut out);
@@ -414,7 +414,7 @@ fn families_base(id: &str, tier: &str) -> Vec<Spec> {
                 fault_families(tier, 3, &mut out);
             }
         }
-        "C11" => hostile_families(tier, if thorough { 3 } else { 2 }, &mut out),
+        "C11" => hostile_families(tier, if thorough { 5 } else { 2 }, &mut out),
         "C16" => shutdown_families(if thorough { 6 } else { 4 }, &mut out),
         _ => {}
     }
